@@ -1,5 +1,6 @@
 import SpoxModel.Lemmas.Opset
 import SpoxModel.Lemmas.OpsetRename
+import SpoxModel.Lemmas.OpsetFuncs
 /-!
 # C09 — one opset per domain; mixed-version programs build and keep their meaning
 
@@ -159,6 +160,28 @@ theorem function_opsets_agree (g : PGraph) :
   obtain ⟨fg, _, rfl⟩ := hf
   exact (adaptGraph_ok genFacts _ fg e he).2.2 d
 
+/-- One version per domain across the model AND its functions: the imports of every emitted function — the
+    functions of bodies and of other functions' graphs included — answer every lookup exactly like the
+    model's imports (every requirement of a function graph is a requirement of the graph using it). -/
+theorem function_imports_agree (g : PGraph) :
+    ∀ f ∈ (buildModel genFacts g).funcs, ∀ d, lookup d f.1 = lookup d (buildModel genFacts g).imports := by
+  intro f hf d
+  simp only [buildModel, List.mem_map] at hf
+  obtain ⟨fg, hfg, rfl⟩ := hf
+  show lookup d (policy (reqGraph genFacts fg ++ policy (reqGraph genFacts g ++ []))) =
+    lookup d (policy (reqGraph genFacts g ++ []))
+  apply lookup_policy_absorb_policy
+  intro r hr
+  exact List.mem_append.mpr (Or.inl (funcs_req_G genFacts fg g hfg r hr))
+
+/-- …so every node inside a function (its graph and the bodies below it) is adapted against opsets that
+    answer like the MODEL's imports. -/
+theorem function_nodes_see_model_imports (g : PGraph) :
+    ∀ f ∈ (buildModel genFacts g).funcs, ∀ e ∈ f.2, ∀ d,
+      lookup d e.opsets = lookup d (buildModel genFacts g).imports := by
+  intro f hf e he d
+  rw [function_opsets_agree g f hf e he d, function_imports_agree g f hf d]
+
 /-- **Partial** (`concrete` inside `NodeOk` excludes the listed finding `adapt:unknown-rank`; what the
     converter emits is a parameter): every node of the main graph and of every body below it, at any
     depth, is emitted in a form that is well-formed at the imported version of its domain — kept when the
@@ -313,6 +336,17 @@ theorem inline_converted_iff (g : PGraph) (e : Entry) (he : e ∈ (buildModel ge
     by_cases hs : inlineSource imports t = t
     · simp [adaptBestEffort, ht', hs]
     · simp [adaptBestEffort, ht', hs]
+
+/-- Whatever an inlined model imports — `ai.onnx.ml`, a custom domain, the default domain under either
+    name — the built model imports that domain, at that version or above (the largest requested). -/
+theorem inline_imports_dominated (g : PGraph) (e : Entry) (he : e ∈ (buildModel genFacts g).main)
+    (imports : List Req) (hd : Bool) (hk : e.node.kind = .inline imports hd) :
+    ∀ r ∈ imports, ∃ t, lookup (fold r.1) (buildModel genFacts g).imports = some t ∧ r.2 ≤ t := by
+  intro r hr
+  obtain ⟨_, hdom, hag⟩ := entry_invariant g e he
+  have hag' : ∀ d, lookup d e.opsets = lookup d (buildModel genFacts g).imports := hag
+  obtain ⟨t, ht, hle⟩ := hdom r (by rw [hk]; simp [kindReq, hr])
+  exact ⟨t, by rw [← hag' (fold r.1)]; exact ht, hle⟩
 
 /-- …and a converted inlined model is valid in the sense of `entryValid`: its target is the import. -/
 theorem inline_target_is_import (g : PGraph) (e : Entry) (he : e ∈ (buildModel genFacts g).main)
@@ -470,6 +504,18 @@ example : (buildModel genFacts (.mk [])).imports = [("", 14)] := by decide +kern
 example : (buildModel genFacts (renameG (· + 100) mixedExample)).main.map (·.node.id) = [101, 102, 103, 104, 105, 106, 107] ∧
     (buildModel genFacts (renameG (· + 100) mixedExample)).main.map (·.decision) =
       (buildModel genFacts mixedExample).main.map (·.decision) := by decide +kernel
+
+/-- a function whose body uses `ml3.label_encoder`, next to `ml4.label_encoder` and a v18 reduction -/
+def funcExample : PGraph :=
+  .mk [.mk (.func "spox.verif" 0) 1 true
+         [.mk [.mk (.op "ai.onnx.ml" ((Generated.OpsetFacts.opNames.idxOf? ("ai.onnx.ml", "LabelEncoder")).getD 0) 2) 1 true [] 2]] 1,
+       .mk (.op "ai.onnx.ml" ((Generated.OpsetFacts.opNames.idxOf? ("ai.onnx.ml", "LabelEncoder")).getD 0) 4) 1 true [] 3,
+       .mk (.op "" (opNo "ReduceMax") 18) 1 true [] 4]
+
+example : (buildModel genFacts funcExample).imports = [("", 18), ("ai.onnx.ml", 4), ("spox.verif", 0)] ∧
+    (buildModel genFacts funcExample).funcs.map (·.1) = [[("", 18), ("ai.onnx.ml", 4), ("spox.verif", 0)]] ∧
+    (buildModel genFacts funcExample).funcs.map (fun f => f.2.map (·.decision)) = [[.keepNonDefault 2 4]] := by
+  decide +kernel
 
 /-- a legacy opset-11 model importing ai.onnx.ml 1 and a custom domain 2, next to an ml4 LabelEncoder, another
     legacy model asking for the custom domain at 3, and a v21 Identity: both inlined models are converted to 21 -/
